@@ -171,7 +171,7 @@ func (h H) oneActionPerEntry(rule string) {
 						continue
 					}
 					key := h.name(fn) + " path[" + t.Describe() + "]"
-					h.C.Check(rule+" clone-before-mutate", key, cloned && strings.HasPrefix(e.Args[0], "local:"), e.Pos, "a configuration map is mutated without being cloned first (the live configuration shares it)")
+					h.C.Check(rule+" clone-before-mutate", key, cloned && strings.HasPrefix(e.Args[0], "ret:(Config).clone"), e.Pos, "a configuration map is mutated without being cloned first (the live configuration shares it)")
 					muts++
 				case e.Callee == "(*leader).doChangeConfig":
 					nEv++
@@ -224,7 +224,6 @@ func (h H) voterFlips(rule string) {
 func (h H) adoptAndRevert(rule string) {
 	h.onlyWriters(rule+" who-may-write", "raft:Configs.Latest", "(*Raft).setLatest", "openStorage", "(Configs).clone")
 	h.onlyWriters(rule+" who-may-write", "raft:Configs.Committed", "(*Raft).changeConfig", "(*Raft).commitConfig", "openStorage", "(Configs).clone")
-	h.onlyWriters(rule+" who-may-write", "raft:storage.configs", "openStorage")
 	h.onlyCallers(rule+" who-may-call", "raft:(*Raft).setLatest", "(*Raft).changeConfig", "(*Raft).revertConfig")
 	h.onlyCallers(rule+" who-may-call", "raft:(*Raft).revertConfig", "(*Raft).onAppendEntriesRequest")
 	h.onlyCallers(rule+" who-may-call", "raft:(*Raft).changeConfig", "(*Raft).onAppendEntriesRequest", "(*Raft).onInstallSnapRequest", "(*leader).changeConfig", "(*Raft).bootstrap")
